@@ -99,6 +99,15 @@ Theorem C18_ext_levels_ordered : forall p want, (ext_ok_any p = true -> ext_ok_s
   (ext_exact_any p want = true -> ext_exact_same p want = true).
 Proof. intros p want. split; [apply ext_ok_any_implies_same | apply ext_exact_any_implies_same]. Qed.
 Print Assumptions C18_ext_levels_ordered.
+(* the shallow skeleton families (output = promotion of the input with in-context allocations; internals not transcribed) state exactly what a
+   source-certified program returns: for every extracted program passing the exact check, each certified output has the dtype the shallow
+   skeleton computes, for every context, mask dtype and sweep count.  Which entry points of the shallow families have such a program is
+   evaluated on every run (evidence field shallow_families_source_certification). *)
+Theorem C18_shallow_skeleton_matches_certified_program : forall p want, ext_exact_any p want = true ->
+  forall c t m n k o s e, In t ctxs -> In m mask_dts -> In k want -> nth_error (p_outs p) k = Some o -> In (s, e) (p_outs (pure_prog c)) ->
+  eval (mkenv t m) (run (mkenv t m) p n) (snd o) = eval (mkenv t m) (run (mkenv t m) (pure_prog c) n) e.
+Proof. exact shallow_matches_certified_program. Qed.
+Print Assumptions C18_shallow_skeleton_matches_certified_program.
 Example C18_exact2_nonvacuous :
   let p1 := mkprog [(0, In_); (1, Op (Var 0) (Into (Var 0) bare)); (2, RealOf (Var 1))] [(1, Op (Var 1) PyF)] [("*", Var 1); ("*", Var 2)] in
   ext_exact_any p1 [0] = true /\ ext_exact_any p1 [0; 1] = false /\ ext_ok_any p1 = true /\
